@@ -48,4 +48,5 @@ def main() -> None:
     net.finish("bounded", "random statement lists (2..9, repeat probability 0.6), tables large (64/32/16) or minimal, 3 physical types",
                "each case = (physical type, preset, statement list); audit counters from the reference decoder must be 0")
 if __name__ == "__main__":
-    main()
+    from common import run_main
+    run_main(main, "C19")
